@@ -15,7 +15,7 @@ FUNCTIONS = [
 ]
 BOUNDS = {
     "quick": "n_thetas 3 with plates of sizes (1,2) and 4 with sizes (2,1,3) and a single plate; all means real, variances > 0, distances >= 0 symmetric; three triple orders; scorer max_chunk in 1..P+1 and two plate orders; all 6 / 3 sampled relabellings of the posterior samples",
-    "thorough": "additionally n_thetas 5 with sizes (1,2) and (2,3,1,4); all 24 relabellings for n=4",
+    "thorough": "additionally n_thetas 5 with sizes (1,2), (2,3,1,4), (3,3,3); 6 with (1,2), (2,3); 7 with (2,1); 4 with five plates (5,1,4,2,3); scorer with five plates and every max_chunk 1..6; all 24 relabellings for n=4, every tenth of the 120 for n=5",
 }
 ASSUMPTIONS = [
     "exp/log are uninterpreted functions: equalities are identities of real terms (stronger than floating-point agreement, silent about rounding)",
@@ -23,7 +23,7 @@ ASSUMPTIONS = [
     "rng.choice(C, C, replace=False) is a permutation of range(C): identity, reversal and one rotation are explored (permutation invariance of a real sum is not re-proved for all C! orders)",
     "variances are positive reals, distance matrix symmetric with zero diagonal and entries >= 0, all finite",
 ]
-OUTSIDE = ["sub-sampled regime C(n,3) > max_combos (C15/C18 cover distinctness and reproducibility only)", "IEEE overflow/underflow of exp", "n_thetas > 5"]
+OUTSIDE = ["sub-sampled regime C(n,3) > max_combos (C15/C18 cover distinctness and reproducibility only)", "IEEE overflow/underflow of exp", "n_thetas > 7"]
 RULE = "paths are the scorer's own case distinctions (max_chunk, plate order, triple order); every mean, variance and distance is a symbolic real on each path."
 BUDGET_S = {"quick": 300, "thorough": 1800}
 PROVE_TIMEOUT_MS = 30000
@@ -37,7 +37,7 @@ def configs(tier, seed):
     out = []
     shapes = [(3, (1, 2)), (4, (2, 1, 3)), (4, (2,))]
     if not q:
-        shapes += [(5, (1, 2)), (5, (2, 3, 1, 4)), (3, (1, 1, 1, 1))]
+        shapes += [(5, (1, 2)), (5, (2, 3, 1, 4)), (3, (1, 1, 1, 1)), (6, (1, 2)), (6, (2, 3)), (5, (3, 3, 3)), (4, (5, 1, 4, 2, 3)), (7, (2, 1))]
     for nt, sizes in shapes:
         for order in ("id", "rev", "rot"):
             if order != "id" and (nt, sizes) not in ((3, (1, 2)), (4, (2, 1, 3))):
@@ -46,6 +46,12 @@ def configs(tier, seed):
         out.append(dict(name="homo nt=%d sizes=%s" % (nt, sizes), h="homo", nt=nt, sizes=list(sizes)))
     out.append(dict(name="scorer nt=3 sizes=(1,2)", h="scorer", nt=3, sizes=[1, 2]))
     out.append(dict(name="scorer nt=4 sizes=(2,1,3)", h="scorer", nt=4, sizes=[2, 1, 3]))
+    if not q:
+        out.append(dict(name="scorer nt=4 sizes=(1,2,3,1,2)", h="scorer", nt=4, sizes=[1, 2, 3, 1, 2]))
+        out.append(dict(name="scorer nt=5 sizes=(2,1,2)", h="scorer", nt=5, sizes=[2, 1, 2]))
+        perms5 = list(itertools.permutations(range(5)))[1:]
+        for pi in perms5[::10]:
+            out.append(dict(name="relabel nt=5 perm=%s" % (pi,), h="relabel", nt=5, sizes=[2, 1], perm=list(pi)))
     perms3 = list(itertools.permutations(range(3)))[1:]
     for pi in perms3:
         out.append(dict(name="relabel nt=3 perm=%s" % (pi,), h="relabel", nt=3, sizes=[1, 2], perm=list(pi)))
@@ -65,12 +71,12 @@ def fixtures(cfg):
     r = random.Random(11)
     vals = {}
     for p in range(5):
-        for t in range(6):
+        for t in range(7):
             for e in range(5):
                 vals["m%d_%d_%d" % (p, t, e)] = r.uniform(-2, 2)
                 vals["v%d_%d_%d" % (p, t, e)] = 10 ** r.uniform(-3, 3)
             vals["hv%d_%d" % (p, t)] = 10 ** r.uniform(-2, 2)
-    for i in range(6):
+    for i in range(7):
         for j in range(i):
             vals["d%d_%d" % (i, j)] = r.uniform(0.0, 2.0)
     vals.update(max_chunk=2, which=0, zero_all=False)
